@@ -17,6 +17,7 @@ __all__ = [
 ]
 
 import colorsys
+import math
 import re
 import urllib.parse
 
@@ -427,7 +428,15 @@ class ColorValue(Value):
                         continue
 
                     # save components
-                    if type_ == Value.NUMBER:
+                    try:
+                        finite = math.isfinite(item.value.value)
+                    except (OverflowError, TypeError):
+                        finite = type_ not in (Value.NUMBER, Value.PERCENTAGE)
+                    if not finite and (HSL or type_ == Value.PERCENTAGE):
+                        # (a literal beyond float arithmetic converts to no
+                        # channel)
+                        check += '!'
+                    elif type_ == Value.NUMBER:
                         raw.append(item.value.value)
                         check += 'N'
                     elif type_ == Value.PERCENTAGE:
